@@ -1,6 +1,7 @@
 // Correspondence harness for C04: the REAL Transport::connectSync / ITransport::connectSyncCancellable and the REAL
 // onConnect/onClose handlers (transport_impl.hpp) over a scripted FIFO engine injected through the repository's own seam.
-//   (1) single-threaded lockstep ops  reset / connect / pop / complete / fail / peerclose / fence     -> one answer line each
+//   (1) single-threaded lockstep ops  reset [udp|tcp] / connect / pop / complete / fail / peerclose / fence     -> one answer line each
+//       (`reset udp`: the Transport is configured with Protocol::UDP; after repair FC04b connectSync takes ONE path for every protocol)
 //   (2) `sched …`: 2-5 thread programs under DetSched (callers, the I/O thread as a reactive loop driven by a per-session
 //       policy, a cancel/fence thread); the answer is the sequence of model steps the run performed, in real order, with what
 //       the implementation was observed to do in each (created ids, engine->close calls, global callbacks, return values).
@@ -67,12 +68,14 @@ void QEngine::note(char kind, const std::string& s)
   if (g && g->sched) mark(kind, s); else if (g) g->evs.push_back(s);
 }
 
+bool g_udp = false;     // `reset udp` / `polu`: the Transport is configured with Protocol::UDP (same scripted engine behind it)
+
 void resetWorld()
 {
   delete g;
   g = new World();
   TransportConfig cfg;
-  cfg.protocol = Protocol::TCP;
+  cfg.protocol = g_udp ? Protocol::UDP : Protocol::TCP;
   auto fe = std::make_unique<QEngine>();
   g->e = fe.get();
   g->t = iora::network::test::TransportEngineInjector::withEngine(std::move(fe), cfg);
@@ -206,8 +209,9 @@ std::string stateLine()
 // policy letter of the k-th created session: o complete as soon as possible, f/u fail when the Connect is popped (refused / unresolved),
 //   r/t/s fail later (refused / engine-side connect timeout / TLS handshake failure),
 //   n never complete, l complete only once the caller's Close for it is queued (the late completion), p complete then peer-close
-// thread ops: k:<timeoutMs> connectSync, w:<timeoutMs> connectSyncCancellable (token of this thread), x:<appIndex> cancel that
-//   thread's token, f fence (setTeardownFence), y yield
+// thread ops: k:<timeoutMs> connectSync, w:<timeoutMs> connectSyncCancellable (token of this thread; timeouts may be 0 or negative),
+//   x:<appIndex> cancel that thread's token, f fence (setTeardownFence), T fence through teardownWaitOut(true) (waits the callers out),
+//   R engine->connect starts refusing, y yield.   `polu` instead of `pol`: Protocol::UDP transport
 struct Prog
 {
   std::vector<std::vector<std::string>> threads;
@@ -279,14 +283,16 @@ void appThread(const std::vector<std::string>& ops, int idx)
       std::string tmo = rest.substr(0, rest.find(':'));
       u64 tlsv = 0;
       if (rest.find(':') != std::string::npos) vh::parseNat(rest.substr(rest.find(':') + 1), tlsv);
-      if (!vh::parseNat(tmo, a)) continue;
+      bool neg = !tmo.empty() && tmo[0] == '-';
+      if (!vh::parseNat(neg ? tmo.substr(1) : tmo, a)) continue;
+      long long sa = neg ? -static_cast<long long>(a) : static_cast<long long>(a);
       bool wrapped = op[0] == 'w';
       TlsMode tm = tlsv == 1 ? TlsMode::Client : tlsv == 2 ? TlsMode::Server : TlsMode::None;
       if (tlsv > 2) tlsv = 0;
-      mark('B', std::string("call ") + std::to_string(idx) + " " + (wrapped ? "1" : "0") + " " + std::to_string(tlsv) + " " + std::to_string(a));
+      mark('B', std::string("call ") + std::to_string(idx) + " " + (wrapped ? "1" : "0") + " " + std::to_string(tlsv) + " " + std::to_string(sa));
       ConnectResult r = wrapped
-        ? g->t->connectSyncCancellable("127.0.0.1", 9, *g_tokens[idx], tm, std::chrono::milliseconds(a))
-        : g->t->connectSync("127.0.0.1", 9, tm, std::chrono::milliseconds(a));
+        ? g->t->connectSyncCancellable("127.0.0.1", 9, *g_tokens[idx], tm, std::chrono::milliseconds(sa))
+        : g->t->connectSync("127.0.0.1", 9, tm, std::chrono::milliseconds(sa));
       mark('E', "ret:" + std::to_string(idx) + ":" + resName(r));
     }
     else if (op[0] == 'x' && op.size() > 2 && vh::parseNat(op.substr(2), a))
@@ -301,6 +307,14 @@ void appThread(const std::vector<std::string>& ops, int idx)
       g->t->_impl->setTeardownFence();
       mark('E', "-");
     }
+    else if (op == "T")
+    {
+      // the fence raised the way ~Transport / performTeardown raise it: teardownWaitOut sets shuttingDown under syncMutex,
+      // wakes every parked connectSync and waits until none is left
+      mark('B', "fence");
+      g->t->_impl->teardownWaitOut(true);
+      mark('E', "-");
+    }
     else if (op == "R")
     {
       // from now on engine->connect refuses (what TcpEngine::connect does once its queue is closed, e.g. after a plain stop())
@@ -313,7 +327,8 @@ void appThread(const std::vector<std::string>& ops, int idx)
 
 std::string runSched(const std::vector<std::string>& t)
 {
-  if (t.size() < 7 || t[4] != "pol") return "bad-op";
+  if (t.size() < 7 || (t[4] != "pol" && t[4] != "polu")) return "bad-op";
+  g_udp = t[4] == "polu";
   u64 toIn = 0, spIn = 0;
   if (!vh::parseNat(t[2], toIn) || !vh::parseNat(t[3], spIn)) return "bad-op";
   Prog prog;
@@ -547,7 +562,8 @@ std::string stepOp(const std::vector<std::string>& t)
 {
   if (t.empty()) return "bad-op";
   u64 a = 0, b = 0;
-  if (t[0] == "reset" && t.size() == 1) { resetWorld(); return "ok"; }
+  if (t[0] == "reset" && t.size() == 1) { g_udp = false; resetWorld(); return "ok"; }
+  if (t[0] == "reset" && t.size() == 2 && (t[1] == "udp" || t[1] == "tcp")) { g_udp = t[1] == "udp"; resetWorld(); return "ok"; }
   if (t[0] == "sched") return runSched(t);
   if (!g) return "no-world";
   if (t[0] == "refuse" && t.size() == 2) { g->e->refuse = t[1] == "1"; return "ok"; }
